@@ -536,7 +536,7 @@ def constRange (lo hi : F) : DepthRange F :=
 
 /-- a Cartesian world with the default thermal constants (their values play no role in the witnesses) -/
 def witnessCtx : Ctx F := ⟨⟨false, .none, 0⟩, 1600, 293, false, 0, 1, 1, 10⟩
-def witnessQuery (d : F) : Query F := ⟨⟨0, 0, 0⟩, ⟨0, 0, 0⟩, d, 10⟩
+def witnessQuery (d : F) : Query F := { pt := ⟨0, 0, 0⟩, nat := ⟨0, 0, 0⟩, depth := d, gravityNorm := 10 }
 
 theorem constRange_locals (T : Transc F) (lo hi : F) (lf : Bool) (ctx : Ctx F) (q : Query F) (h1 : lo ≤ q.depth) (h2 : q.depth ≤ hi) :
     @DepthRange.locals F (fieldScalar T) (constRange lo hi) ctx q lf = .ok (some (lo, hi)) := by
